@@ -169,7 +169,7 @@ def all_jobs(prop, tier, seed, scale=1.0):
         return max(1, int((a if q else b) * scale))
     if prop in SIM_PLANS:
         jobs += sim_jobs(prop, tier, seed, scale)
-    if prop in ('C02', 'C19'):
+    if prop in ('C02', 'C19', 'C09'):
         from . import clusterhist
         jobs += clusterhist.jobs(prop, tier, seed, scale)
     if prop == 'C06':
@@ -193,6 +193,9 @@ def all_jobs(prop, tier, seed, scale=1.0):
         jobs += [{'kind': 'hashdiff', 'prop': prop, 'tier': tier, 'i': i, 'n': 8,
                   'H': 4 if q else 12,
                   'seed': sub_seed('hashdiff', tier, seed, i)} for i in range(n_(16, 112))]
+    if prop == 'C13':
+        jobs += [{'kind': 'pause', 'prop': prop, 'tier': tier, 'i': i,
+                  'seed': sub_seed('pause13', tier, seed, i)} for i in range(n_(96, 960))]
     if prop == 'C11':
         jobs += [{'kind': 'pause', 'prop': prop, 'tier': tier, 'i': i,
                   'seed': sub_seed('pause', tier, seed, i)} for i in range(n_(240, 1200))]
@@ -207,13 +210,15 @@ def minima(prop, tier, scale=1.0):
     """Deciding-monitor counters that must be reached, else the run is
     inconclusive (exit 2).  Chosen from measured values with a wide margin."""
     base = MINIMA.get(prop, {})
-    f = (1.0 if tier == 'quick' else 8.0) * scale
+    # the table holds about a third of the measured values; a tenth of the measured value is
+    # what is required (reach of the monitors, not the behaviour of the code under test)
+    f = (1.0 if tier == 'quick' else 8.0) * scale * 0.3
     return {k: max(1, int(v * f)) for k, v in base.items()}
 
 
 # measured on the unchanged tree (seed 0, quick) and set to roughly a third of that
 MINIMA = {
-    'C01': {'c01_activations': 7000, 'c01_busy_skipped': 1200, 'c01_rejections': 40,
+    'C01': {'c01_activations': 7000, 'c01_busy_proposals': 1200, 'c01_adversarial_rewrites': 600,
             'c01_evals': 200000, '_nontrivial': 300},
     'C02': {'c02_partition_evals': 140000, 'c02_refused_calls': 5000, 'c02_ops_checked': 10000,
             'c02_counter_evals': 30000, 'c02_final_evals': 200, '_nontrivial': 1500},
